@@ -646,3 +646,11 @@ Proof.
       rewrite firstn_all2 by (rewrite app_length; simpl; lia).
       rewrite dotted_snoc. reflexivity.
 Qed.
+
+(* non-vacuity of the modulo theorems: gap-free inputs with non-trivial answers exist for the code as it stands *)
+Example modulo_nonvacuous_asis :
+  wf_chain c_A = true /\ e_gap v_asis c_A (XLambda ["q"] (XName "x") (XSeq (XName "A") (XName "q"))) = false
+  /\ g_names v_asis c_A (XLambda ["q"] (XName "x") (XSeq (XName "A") (XName "q"))) = ["m.A.x"; "m.A"; "q"]
+  /\ gap_class_v false [w_B; w_A; w_m] "A" = false /\ resolve_v false false [w_B; w_A; w_m] "A" = Some "m.A"
+  /\ gap_class_v true [w_init; w_A2; w_m] "p" = false /\ resolve_v true false [w_init; w_A2; w_m] "p" = Some "m.A(p)".
+Proof. vm_compute. repeat split. Qed.
